@@ -112,9 +112,19 @@ def fuseFiltersL : NodeList → NodeList
   | .cons t ts => .cons (fuseFilters t) (fuseFiltersL ts)
 end
 
-/-! ### `pushdown_filters` (337) with `adjust_predicate_columns(pred, -(left_cols))` (525).
-    The right-hand case subtracts the left width from every column index, although the join output
-    omits the right key columns (code_generator/mod.rs:2056) — mirrored as is. -/
+/-! ### `pushdown_filters` (337).  Left-only predicates move to the left input unchanged; right-only
+    predicates move to the right input with every column `c` translated by
+    `remap_predicate_columns_to_right_input`: `c - left_cols` is a position among the right *non-key*
+    columns, the excluded key positions are re-inserted (the mapping of
+    `remap_projection_for_join_flatmap`). -/
+
+/-- re-insert the (sorted) excluded key positions: the `a`-th non-key column is column `reinsert ks a` -/
+def reinsert : List Nat → Nat → Nat
+  | [], a => a
+  | k :: ks, a => if k ≤ a then reinsert ks (a + 1) else reinsert ks a
+
+def sortNat (l : List Nat) : List Nat := sortBy (fun (a b : Nat) => a ≤ b) l
+
 
 mutual
 def pushdown : Node → Node
@@ -125,7 +135,7 @@ def pushdown : Node → Node
       let refsLeft := p.cols.any (fun c => c < lw)
       let refsRight := p.cols.any (fun c => c ≥ lw)
       if refsLeft && !refsRight then .join (.filter l p) r lk rk s
-      else if refsRight && !refsLeft then .join l (.filter r (p.mapCols (fun c => c - lw))) lk rk s
+      else if refsRight && !refsLeft then .join l (.filter r (p.mapCols (fun c => reinsert (sortNat rk) (c - lw)))) lk rk s
       else .filter (.join l r lk rk s) p
     | i' => .filter i' p
   | .map i proj s => .map (pushdown i) proj s
@@ -218,12 +228,6 @@ def fuseFlatMapL : NodeList → NodeList
 end
 
 /-! ### `remap_projection_for_join_flatmap` (1131) and `fuse_to_join_flatmap` (1169) -/
-
-def reinsert : List Nat → Nat → Nat
-  | [], a => a
-  | k :: ks, a => if k ≤ a then reinsert ks (a + 1) else reinsert ks a
-
-def sortNat (l : List Nat) : List Nat := sortBy (fun (a b : Nat) => a ≤ b) l
 
 def remapProj (proj : List Nat) (lw : Nat) (rk : List Nat) : List Nat :=
   proj.map (fun idx => if idx < lw then idx else lw + reinsert (sortNat rk) (idx - lw))
@@ -344,48 +348,6 @@ end
 def specialize (t : Node) : Node × Semiring :=
   let a := analyze t
   (bsTransform (a == .boolean) t, a)
-
-end ILV.IR
-
-namespace ILV.IR
-
-/-! ## identifying predicates of known defect families (used by the C05 handler and `…_partial` theorems) -/
-
-/- does `pushdown` take its right-hand branch somewhere in `t` with a referenced column that lies at
-   or after a right key column (so that `c - left_cols` is not the column's index in the right input)? -/
-mutual
-def pushUnsafe : Node → Bool
-  | .filter i p =>
-    pushUnsafe i ||
-    (match pushdown i with
-     | .join l _ _ rk _ =>
-       let lw := width l
-       let refsLeft := p.cols.any (fun c => c < lw)
-       let refsRight := p.cols.any (fun c => c ≥ lw)
-       refsRight && !refsLeft && p.cols.any (fun c => rk.any (fun k => k ≤ c - lw))
-     | _ => false)
-  | .map i _ _ => pushUnsafe i
-  | .join l r _ _ _ => pushUnsafe l || pushUnsafe r
-  | .antijoin l r _ _ _ => pushUnsafe l || pushUnsafe r
-  | .distinct i => pushUnsafe i
-  | .union is => pushUnsafeL is
-  | .aggregate i _ _ _ => pushUnsafe i
-  | .compute i _ => pushUnsafe i
-  | _ => false
-def pushUnsafeL : NodeList → Bool
-  | .nil => false
-  | .cons t ts => pushUnsafe t || pushUnsafeL ts
-end
-
-def beforePushdown (t : Node) : Node := fuseFilters (fuseMaps (elimFalse (elimTrue (elimIdMaps t))))
-
-/-- no round among the next `n` rounds of `apply_all_rules` takes the defective push-down branch -/
-def optSafe : Nat → Node → Bool
-  | 0, _ => true
-  | n + 1, t => !pushUnsafe (beforePushdown t) && optSafe n (applyAll t)
-
-/-- some round of `optimize` pushes a filter into the right join input past a key column -/
-def optPushUnsafe (t : Node) : Bool := !optSafe 10 t
 
 end ILV.IR
 
